@@ -49,7 +49,7 @@ def exhaustive(alphabet: list[list], n: int, prefix: list[list]) -> list[list[li
     for tup in itertools.product(alphabet, repeat=n):
         ops = [list(o) for o in prefix]
         for i, o in enumerate(tup):
-            ops.append(["tags", o[1], len(prefix) + i + 1] if o[0] == "tags" else list(o))
+            ops.append(["tags", o[1], len(prefix) + i + 1, o[2] if len(o) > 2 else None] if o[0] == "tags" else list(o))
         out.append(ops)
     return out
 
@@ -57,7 +57,11 @@ def exhaustive(alphabet: list[list], n: int, prefix: list[list]) -> list[list[li
 def engine_history(rng, n_runs: int) -> tuple[list[list], dict]:
     """What a real engine produces: runs r1, r2, … each `start r, tags…, stop r`, with tags outside runs carrying no
     run id, tick times strictly increasing; the connection drops / the aggregator restarts at random points, the
-    engine re-registers and re-sends what was refused while it was away.  Returns (ops, info for the oracle)."""
+    engine re-registers and re-sends what was refused while it was away.  Tag messages may carry the System State
+    tag; the state the aggregator gets to see lags or leads the run messages: still Stopped (0) for the first
+    messages of a run (RunStartedMsg overtakes the tag update with Running), Running (1) / Paused (2) in the middle,
+    Stopped again for the last messages before the (buffered) RunStoppedMsg, and now and then any state anywhere.
+    Returns (ops, info for the oracle)."""
     ops: list[list] = [["register"]]
     registered = True
     t = 0
@@ -72,10 +76,10 @@ def engine_history(rng, n_runs: int) -> tuple[list[list], dict]:
                 ops.append(op)        # sent into the void: refused by validate_msg, kept by the engine
             backlog.append(op)
 
-    def maybe_break():
+    def maybe_break(p: float = 0.22):
         nonlocal registered
         x = rng.random()
-        if x < 0.22:
+        if x < p:
             kind = rng.choice(["disconnect", "restart", "disconnect+restart", "restart+restart"])
             for k in kind.split("+"):
                 ops.append([k])
@@ -89,17 +93,29 @@ def engine_history(rng, n_runs: int) -> tuple[list[list], dict]:
             if rng.random() < 0.25:
                 ops.append(["register"])      # a second RegisterEngineMsg while registered
 
+    def state(expected: int):
+        x = rng.random()
+        if x < 0.25:
+            return None                       # the state tag did not change: not in this message
+        if x < 0.9:
+            return expected
+        return rng.choice([0, 1, 2])
+
     for r in range(1, n_runs + 1):
         for _ in range(rng.randrange(0, 3)):
             t += rng.randrange(1, 4)
-            send(["tags", None, t])
+            send(["tags", None, t, state(0)])
             maybe_break()
         send(["start", r])
-        maybe_break()
-        for _ in range(rng.randrange(1, 6)):
+        maybe_break(0.35)                     # the window right after RunStartedMsg
+        n = rng.randrange(1, 6)
+        lag = rng.randrange(0, 2)             # messages of the run that still report Stopped
+        lead = rng.randrange(0, 2)            # messages at the end that already report Stopped
+        for i in range(n):
             t += rng.randrange(1, 4)
-            send(["tags", r, t])
-            maybe_break()
+            expected = 0 if (i < lag or i >= n - lead) else rng.choice([1, 1, 1, 2])
+            send(["tags", r, t, state(expected)])
+            maybe_break(0.35 if (i < lag or i >= n - lead) else 0.22)
             if rng.random() < 0.08:
                 send(["start", r])           # RunStartedMsg delivered twice
         send(["stop", r])
@@ -117,7 +133,7 @@ def random_history(rng) -> list[list]:
         if k in ("start", "stop"):
             ops.append([k, rng.choice([1, 1, 2, 3])])
         elif k == "tags":
-            ops.append(["tags", rng.choice([1, 1, 2, None]), rng.randrange(0, 12)])
+            ops.append(["tags", rng.choice([1, 1, 2, None]), rng.randrange(0, 12), rng.choice([None, None, 0, 1, 2])])
         else:
             ops.append([k])
     return ops
@@ -209,27 +225,33 @@ def run(ctx: Check) -> int:
     rng = ctx.rng
 
     six = [["register"], ["disconnect"], ["restart"], ["start", 1], ["stop", 1], ["tags", 1]]
+    # tags that also report System State: Stopped (quick and thorough), Running (thorough)
+    eight = six + ([["tags", 1, 0], ["tags", 1, 1]] if ctx.tier == "thorough" else [["tags", 1, 0]])
     nine = [["register"], ["disconnect"], ["restart"], ["start", 1], ["start", 2], ["stop", 1], ["stop", 2],
-            ["tags", 1], ["tags", None]]
+            ["tags", 1], ["tags", None, 0]]
     cases: list[dict] = [c for c in load_corpus("C28") if "ops" in c]
     n_corpus = len(cases)
     cases += [{"ops": ops} for ops in exhaustive(six, ctx.n(3, 5), [["register"]])]
-    cases += [{"ops": ops} for ops in exhaustive(six, ctx.n(3, 4), [["register"], ["start", 1]])]   # inside a run
-    cases += [{"ops": ops} for ops in exhaustive(six, 3, [])]                       # histories that start unregistered
+    cases += [{"ops": ops} for ops in exhaustive(eight, ctx.n(3, 4), [["register"], ["start", 1]])]   # inside a run
+    cases += [{"ops": ops} for ops in exhaustive(six, ctx.n(2, 3), [])]             # histories that start unregistered
     cases += [{"ops": ops} for ops in exhaustive(nine, ctx.n(2, 4), [["register"], ["start", 1]])]
+    if ctx.tier == "thorough":                          # the run starts while the engine still reports Stopped
+        cases += [{"ops": ops} for ops in exhaustive(eight, 3, [["register"], ["tags", None, 0], ["start", 1]])]
     n_exh = len(cases) - n_corpus
-    for _ in range(ctx.n(150, 4000)):
+    for _ in range(ctx.n(120, 4000)):
         ops, info = engine_history(rng, rng.randrange(1, 4))
         cases.append({"ops": ops, **info})
-    for _ in range(ctx.n(80, 2500)):
+    for _ in range(ctx.n(60, 2500)):
         cases.append({"ops": random_history(rng)})
     ctx.extra["histories"] = {"corpus": n_corpus, "exhaustive": n_exh,
                               "engine_protocol_with_reconnects": sum(1 for c in cases if c.get("protocol")),
-                              "random_malformed": ctx.n(80, 2500)}
-    ctx.rule = ("histories over {register(+uod info), disconnect, graceful restart, start r, stop r, tags(run|none, t)}: "
-                "all histories of length 3/5 after a registration and of length 3/4 after `register, start 1` over one run "
-                "id, all of length 3 from the empty aggregator, all of length 2/4 over two run ids after `register, "
-                "start 1`; engine-protocol histories "
+                              "random_malformed": ctx.n(60, 2500)}
+    ctx.rule = ("histories over {register(+uod info), disconnect, graceful restart, start r, stop r, tags(run|none, t, "
+                "optional System State Stopped/Running/Paused)}: all histories of length 3/5 after a registration (6 "
+                "events), of length 3/4 after `register, start 1` (7/8 events: tags without state, reporting Stopped, "
+                "thorough also reporting Running), all of length 2/3 from the empty aggregator, all of length 2/4 over two run ids "
+                "after `register, start 1`; engine-protocol histories where the reported System State lags (still "
+                "Stopped after RunStarted) or leads (Stopped before RunStopped) the run messages; engine-protocol histories "
                 "(1-3 runs, increasing tick times, refused messages re-sent after re-registration, duplicate "
                 "RunStarted) with disconnect / restart / both at every point; random histories with stale ids, "
                 "decreasing times, messages to an unregistered engine. Non-trivial = the engine is registered again "
